@@ -35,6 +35,50 @@ Theorem C26_no_deadlock : forall prog sched s,
 Proof. exact no_deadlock. Qed.
 Print Assumptions C26_no_deadlock.
 
+(* ---- the actors with their inboxes (actor level) ----
+   System: the RelayActor (on_network_change = [compare; watch := N via set / clear; SetHomeRelay(url == N)
+   queued to every connection actor; actor for N started if missing, with SetHomeRelay(true)
+   queued when N is advertised]), any number of connection actors, each with a FIFO inbox of
+   SetHomeRelay(b) messages handled LATER (in run_dialing: nothing published; in run_connected:
+   `set_status(own url, Connected)` if b) and its status reports (`set_status(own url, c)` at
+   the three sites of run / run_once).  Every list of events = every interleaving of inbox
+   handling, status reports, actor starts and home changes. *)
+Theorem C26_demoted_never_published_with_inboxes : forall evs s,
+  arun astep ainit evs = Some s -> url_of (awatch s) = achosen s.
+Proof. exact actor_demoted_never_published. Qed.
+Print Assumptions C26_demoted_never_published_with_inboxes.
+
+(* Whatever a connection actor does (a queued SetHomeRelay message handled however late, a
+   status report) while its relay is not the chosen home publishes nothing. *)
+Theorem C26_demoted_actor_publishes_nothing : forall evs s u e s',
+  arun astep ainit evs = Some s -> achosen s <> Some u ->
+  (exists conn b, e = AHandle u conn b) \/ (exists c, e = AReport u c) ->
+  astep s e = Some s' -> awatch s' = awatch s /\ achosen s' = achosen s.
+Proof. exact demoted_actor_publishes_nothing. Qed.
+Print Assumptions C26_demoted_actor_publishes_nothing.
+
+(* A status report of the chosen home relay's actor is what gets advertised. *)
+Theorem C26_home_actor_report_published : forall evs s u c s',
+  arun astep ainit evs = Some s -> achosen s = Some u ->
+  astep s (AReport u c) = Some s' -> awatch s' = Some (u, c) /\ achosen s' = Some u.
+Proof. exact home_actor_report_published. Qed.
+Print Assumptions C26_home_actor_report_published.
+
+(* If the SetHomeRelay(true) handler of run_connected used the RelayActor's unguarded writer
+   `set` instead of `set_status`, the property would fail: a connection demoted before it
+   handled its message advertises itself again, and nothing repairs it. *)
+Theorem C26_unguarded_handler_refuted :
+  exists evs s, arun Unguarded.astep ainit evs = Some s /\ url_of (awatch s) <> achosen s.
+Proof. exact unguarded_handler_refuted. Qed.
+Print Assumptions C26_unguarded_handler_refuted.
+
+Theorem C26_unguarded_handler_refuted_sticks :
+  exists evs s, arun Unguarded.astep ainit evs = Some s /\
+    awatch s = Some (1, 1) /\ achosen s = Some 2 /\
+    forallb (fun a => match a_inbox a with [] => true | _ => false end) (actors s) = true.
+Proof. exact unguarded_handler_refuted_sticks. Qed.
+Print Assumptions C26_unguarded_handler_refuted_sticks.
+
 (* The boolean monitor on the observed (watchable value, most recent choice) pairs is that statement
    (`None` entries are observation points the harness could not read without a race). *)
 Theorem C26_monitor_is_property : forall i l,
